@@ -261,12 +261,12 @@ func ruleC07CteMemo(c *Ctx) {
 			if lastStore != nil {
 				restored := false
 				if v, ok := lastStore.Vals[2].T.V.(ssa.Value); ok && lastStore.Vals[2].T != nil {
-					if mc, _ := closureVia(v); mc != nil && mc.Fn == ssa.Value(thunk) {
+					if mc, _ := closureVia(v); mc != nil && sameThunk(mc.Fn, thunk) {
 						restored = true
 					}
 				}
 				if mu, ok := lastStore.Instr.(*ssa.MapUpdate); ok && !restored {
-					if mc, _ := closureVia(mu.Value); mc != nil && mc.Fn == ssa.Value(thunk) {
+					if mc, _ := closureVia(mu.Value); mc != nil && sameThunk(mc.Fn, thunk) {
 						restored = true
 					}
 				}
@@ -1892,4 +1892,14 @@ func ruleC17CommentStates(c *Ctx) {
 		}
 		c.Check(len(missing) == 0, "c17.comment-states", name, c.P.Pos(f.Pos()), "the comment starters #, --, //, /* are recognised outside quotes", "the scanner never looks for "+strings.Join(missing, ", ")+": it has no comment state, so a quote, backtick or bracket inside a comment opens a region that swallows the SQL (or the sanitized literal) behind it")
 	}
+}
+
+// sameThunk: the function value stands for the lazy entry under analysis — the very closure, or another bound value of
+// the same method (go/ssa makes one `$bound` wrapper per place a method value is taken).
+func sameThunk(fn ssa.Value, thunk *ssa.Function) bool {
+	if fn == ssa.Value(thunk) {
+		return true
+	}
+	f, ok := fn.(*ssa.Function)
+	return ok && strings.HasSuffix(f.Name(), "$bound") && f.String() == thunk.String()
 }
